@@ -50,7 +50,11 @@ P = {
          "For every decoder entry point separately, well-formed packets written by the reference packet encoder (all payload and extension-header chains, option/source/record counts, up to jumbo size) are mutated as for C07, with the byte and word value tables chosen to hit 8- and 16-bit wrap-around of derived sizes (HEL 255, option length 254/255, 16384 sources, IHL 0..15), plus pure random inputs; each call runs under the panic / CPU / allocation monitor.",
          'Budgets are generous linear bounds. Holds for the generated inputs only.',
          "5/C08"),
- "C09": (False, "", "", "", "5/C09"),
+ "C09": (True,
+         'runtime monitor: differential (library encoder vs RFC reference layout; library decoder on reference bytes vs recipe) and metamorphic (round trip, re-encode, extent) assertions, with every packed bit-field group swept exhaustively against all-zero and all-ones neighbours',
+         "Each packed group (VLAN TCI, IPv4 version/IHL, DSCP/ECN, flags/fragment offset, IPv6 version/class/flow label, TCP offset/flags, fragment offset/M, IGMPv3 S/QRV) is enumerated completely on every run with its neighbours at zero and at all-ones, and tens of thousands of generated well-formed headers of every kind, payload chain, extension-header chain and option/source/record count are encoded by the library and compared with the independent RFC-layout encoder, decoded from the reference bytes and compared field by field (payload kinds included, which checks the demultiplexing), re-encoded and sized.",
+         'Trusts the reference packet encoder. Well-formed headers only. One known finding (priority tags, VLAN id 0) is listed with a witness; TCP/IGMP payloads may be typed or opaque.',
+         "5/C09"),
  "C10": (False, "", "", "", "5/C10"),
  "C11": (False, "", "", "", "5/C11"),
  "C12": (False, "", "", "", "5/C12"),
